@@ -57,7 +57,7 @@ def gen_case(rng, params):
         else:
             ops.append("rut:1")
         while depth and rng.random() < 0.7:
-            ops.append("st-"); depth -= 1
+            ops.append(rng.choice(["st-", "st-", "st-!"])); depth -= 1
         if rng.random() < 0.05:
             ops.append(f"prompt:{hx(rng.choice(g.PROMPTS))}")
     while depth:
@@ -82,7 +82,7 @@ def _nesting(line):
             for x in st:
                 pairs.append((x, sp))
             st.append(sp)
-        elif o == "st-" and st:
+        elif o in ("st-", "st-!") and st:
             st.pop()
     return pairs
 
@@ -110,7 +110,7 @@ def _prompt_change_while_suppressing(line):
     for o in line.split()[4:]:
         if o.startswith("st+"):
             sup.append(o.endswith(":0"))
-        elif o == "st-" and sup:
+        elif o in ("st-", "st-!") and sup:
             sup.pop()
         elif sup and sup[-1] and (o.startswith(("prompt:", "wp+", "wp-")) or (o.startswith("rup:") and not o.startswith("rup:-"))):
             return True
